@@ -45,6 +45,7 @@ package main
 import (
 	"encoding/json"
 	"fmt"
+	"runtime/debug"
 	"sort"
 	"strings"
 	"sync"
@@ -83,7 +84,9 @@ type mrec struct {
 	active   []string            // rules being evaluated (dependency tracking)
 	notes    []string            // notifications produced by the current event
 	activeOb bool                // observer reads this[member]
-	seen     []string            // what the active observer is expected to see: member=value
+	required map[string]bool     // notifications the current event must produce
+	allowed  map[string]bool     // notifications the current event may produce
+	readonly bool                // Set_readonly was applied: rules still work, results are not saved
 }
 
 func newMrec(activeOb bool) *mrec {
@@ -91,6 +94,8 @@ func newMrec(activeOb bool) *mrec {
 		deps: map[string][]string{}, override: map[string]bool{}, activeOb: activeOb}
 }
 
+// clone models record.Copy: members, invalid marks and dependencies are
+// copied; the copy is modifiable even if the original is read-only.
 func (m *mrec) clone() *mrec {
 	c := newMrec(m.activeOb)
 	for k, v := range m.vals {
@@ -138,16 +143,35 @@ func (m *mrec) get(f string) string {
 	}
 	v, ok := m.vals[f]
 	if !ok || m.invalid[f] {
-		delete(m.invalid, f)
 		if rule := rules[f]; rule != nil && !has(m.active, f) {
 			m.active = append(m.active, f)
 			v = rule(m.get)
 			m.active = m.active[:len(m.active)-1]
+			if m.readonly {
+				// object.Set_readonly: "rules will still work, but their results
+				// can not be saved so they will be evaluated every time"
+				return v
+			}
 			m.vals[f] = v
 			delete(m.override, f)
 		}
+		delete(m.invalid, f)
 	}
 	return v
+}
+
+// staleCached reports whether a read-only record holds a rule value that is
+// marked invalid (the stale value can never be replaced).
+func (m *mrec) staleCached() bool {
+	if !m.readonly {
+		return false
+	}
+	for _, f := range ruleFields {
+		if _, ok := m.vals[f]; ok && m.invalid[f] {
+			return true
+		}
+	}
+	return false
 }
 
 func (m *mrec) invalidate(f string) {
@@ -166,26 +190,52 @@ func (m *mrec) invalidateDependents(f string) {
 	}
 }
 
-// notify finishes a change of member key: the observer is told about key and
-// about every field invalidated by it. In active mode the observer reads each.
-func (m *mrec) notify(key string) {
+// notify finishes a change of member key. m.notes becomes: key first, then
+// every field the change newly marked invalid. m.required / m.allowed bound
+// what the observer may be told:
+//   - required: key and every newly invalidated rule field that held a value
+//     ("changing a field that a rule used ... observers are notified of each
+//     such invalidation");
+//   - allowed: key and every rule field with a tracked dependency path from
+//     key (a field that holds no value or is already invalid may or may not be
+//     reported again - the property does not say).
+func (m *mrec) notify(key string, had map[string]bool) {
 	notes := []string{key}
+	m.required = map[string]bool{key: true}
 	for _, n := range m.notes {
 		if n != key {
 			notes = append(notes, n)
+			if had[n] {
+				m.required[n] = true
+			}
 		}
 	}
 	m.notes = notes
-	if m.activeOb {
-		for _, n := range notes {
-			want := m.sem(n)
-			m.get(n)
-			m.seen = append(m.seen, n+"="+want)
+	m.allowed = map[string]bool{key: true}
+	var walk func(f string)
+	walk = func(f string) {
+		for _, d := range m.deps[f] {
+			if !m.allowed[d] {
+				m.allowed[d] = true
+				walk(d)
+			}
 		}
 	}
+	walk(key)
+}
+
+func (m *mrec) hadValues() map[string]bool {
+	had := map[string]bool{}
+	for f := range m.vals {
+		if !m.invalid[f] {
+			had[f] = true
+		}
+	}
+	return had
 }
 
 func (m *mrec) set(f, v string) {
+	had := m.hadValues()
 	delete(m.invalid, f)
 	old, ok := m.vals[f]
 	m.vals[f] = v
@@ -196,22 +246,24 @@ func (m *mrec) set(f, v string) {
 		return
 	}
 	m.invalidateDependents(f)
-	m.notify(f)
+	m.notify(f, had)
 }
 
 func (m *mrec) del(f string) {
 	if _, ok := m.vals[f]; !ok {
 		return
 	}
+	had := m.hadValues()
 	delete(m.vals, f)
 	delete(m.override, f)
 	m.invalidateDependents(f)
-	m.notify(f)
+	m.notify(f, had)
 }
 
 func (m *mrec) userInvalidate(f string) {
+	had := m.hadValues()
 	m.invalidate(f)
-	m.notify(f)
+	m.notify(f, had)
 }
 
 func (m *mrec) setDeps(f string, on string) {
@@ -235,6 +287,9 @@ func (m *mrec) key(sb *strings.Builder) {
 		sort.Strings(d)
 		fmt.Fprintf(sb, "<%s;", strings.Join(d, ""))
 	}
+	if m.readonly {
+		sb.WriteString("RO")
+	}
 }
 
 // model is the whole system: the original record, an optional copy, and which
@@ -242,6 +297,11 @@ func (m *mrec) key(sb *strings.Builder) {
 type model struct {
 	rec, cp *mrec
 	onCopy  bool
+	// tainted: some event or read was applied to a read-only record that holds
+	// an invalidated cached rule value (see classROStale). From there on the
+	// implementation's bookkeeping knowingly differs from the documented one,
+	// so every later mismatch on this path is attributed to that class.
+	tainted bool
 }
 
 func (m *model) cur() *mrec {
@@ -261,6 +321,9 @@ func (m *model) key() string {
 			sb.WriteString("|C")
 		}
 	}
+	if m.tainted {
+		sb.WriteString("|T")
+	}
 	return sb.String()
 }
 
@@ -270,7 +333,9 @@ type event struct {
 	name string
 	src  string // Suneido function(r) executed on the real record
 	fn   core.Value
-	kind byte // 's' set, 'g' get, 'd' delete, 'i' invalidate, 'p' setdeps, 'c' copy-continue-on-copy, 'k' copy-keep-original
+	// 's' set, 'g' get, 'd' delete, 'i' invalidate, 'p' setdeps, 'o' Set_readonly,
+	// 'c' copy-continue-on-copy, 'k' copy-keep-original
+	kind byte
 	f, v string
 }
 
@@ -298,6 +363,7 @@ func defEvents() {
 	add('p', "r2", "c", `r.SetDeps("r2", "c")`)
 	add('c', "", "", "return r.Copy()")
 	add('k', "", "", "return r.Copy()")
+	add('o', "", "", "r.Set_readonly()")
 	for i := range events {
 		events[i].fn = compile.Constant("function (r) { " + events[i].src + " }")
 		switch events[i].kind {
@@ -309,15 +375,51 @@ func defEvents() {
 	}
 }
 
+// applicable decides from the path alone whether event e is offered in the
+// state reached by path: one Copy per path; on a read-only record only reads,
+// (refused) assignments and deletes, and Copy are offered.
+func applicable(path []int, e int) bool {
+	hasCopy, onCopy := false, false
+	var ro [2]bool // original, copy
+	for _, p := range path {
+		switch events[p].kind {
+		case 'c':
+			hasCopy, onCopy = true, true
+		case 'k':
+			hasCopy = true
+		case 'o':
+			if onCopy {
+				ro[1] = true
+			} else {
+				ro[0] = true
+			}
+		}
+	}
+	curRO := ro[0]
+	if onCopy {
+		curRO = ro[1]
+	}
+	switch events[e].kind {
+	case 'c', 'k':
+		return !hasCopy
+	case 'i', 'p', 'o':
+		return !curRO
+	}
+	return true
+}
+
 var ruleR3 core.Value
 var observerPS core.ParamSpec
+var setupOnce sync.Once
 
 func setup() {
-	core.Global.TestDef("Rule_r1", compile.Constant(`function () { return .a $ "," $ .b }`))
-	core.Global.TestDef("Rule_r2", compile.Constant(`function () { return .r1 $ "!" }`))
-	ruleR3 = compile.Constant(`function () { return .a is "1" ? .r1 : .c }`)
-	observerPS = compile.Constant("function (member) { }").(*core.SuFunc).ParamSpec
-	defEvents()
+	setupOnce.Do(func() {
+		core.Global.TestDef("Rule_r1", compile.Constant(`function () { return .a $ "," $ .b }`))
+		core.Global.TestDef("Rule_r2", compile.Constant(`function () { return .r1 $ "!" }`))
+		ruleR3 = compile.Constant(`function () { return .a is "1" ? .r1 : .c }`)
+		observerPS = compile.Constant("function (member) { }").(*core.SuFunc).ParamSpec
+		defEvents()
+	})
 }
 
 // ---------------------------------------------------------------- implementation side
@@ -415,65 +517,139 @@ func sortedCopy(s []string) []string {
 	return c
 }
 
-// step executes one event on the implementation and on the model and judges
-// it. Returns a failure message or "".
-func step(x *impl, m *model, ev *event) (msg string) {
+// failure is one oracle verdict. class is "" except for the precisely
+// classified candidate defect below.
+type failure struct {
+	msg, class string
+}
+
+// classROStale: the record is read-only and holds a rule value that was
+// invalidated before (or while) it became read-only; after the first read (or
+// refused assignment) of that field the implementation hands out the stale
+// stored value instead of evaluating the rule (Set_readonly documentation:
+// "rules will still work ... evaluated every time they are referenced").
+const classROStale = "readonly-record-invalid-cached-rule-value"
+
+func fail(class, format string, a ...any) *failure {
+	return &failure{msg: fmt.Sprintf(format, a...), class: class}
+}
+
+// step executes one event on the implementation and on the model and judges it.
+func step(x *impl, m *model, ev *event) *failure {
 	r, lg := x.cur()
 	mr := m.cur()
 	lg.notes, lg.seen = nil, nil
-	mr.notes, mr.seen = nil, nil
+	mr.notes, mr.required, mr.allowed = nil, nil, nil
+	if mr.staleCached() {
+		m.tainted = true
+	}
 	var res core.Value
-	if e := lib.Try(func() { res = x.th.Call(ev.fn, r) }); e != nil {
-		return fmt.Sprintf("event %q panicked: %s", ev.name, lib.PanicText(e))
+	e := lib.Try(func() { res = x.th.Call(ev.fn, r) })
+	if e != nil {
+		// a Go-level recover does not unwind the interpreter's frame stack
+		x.th = &core.Thread{}
 	}
-	switch ev.kind {
-	case 's':
-		mr.set(ev.f, ev.v)
-	case 'g':
-		want := mr.sem(ev.f)
-		mv := mr.get(ev.f)
-		if got := valStr(res); got != want {
-			return fmt.Sprintf("%s returned %q but the rule evaluated on the current field values gives %q (fields: %s)",
-				ev.name, got, want, mr.plain())
+	if mr.readonly && (ev.kind == 's' || ev.kind == 'd') {
+		// read-only records reject every mutation and stay unchanged
+		if e == nil || !strings.Contains(lib.PanicText(e), "readonly") {
+			return fail("", "%s on a read-only record: expected a \"can't modify readonly objects\" exception, got %v", ev.name, e)
 		}
-		if mv != want {
-			return fmt.Sprintf("model inconsistency at %s: algorithm %q, from scratch %q", ev.name, mv, want)
+	} else {
+		if e != nil {
+			return fail("", "event %q panicked: %s", ev.name, lib.PanicText(e))
 		}
-	case 'd':
-		mr.del(ev.f)
-	case 'i':
-		mr.userInvalidate(ev.f)
-	case 'p':
-		mr.setDeps(ev.f, ev.v)
-	case 'c', 'k':
-		if x.cp != nil {
-			return "" // only one copy per path (event is a no-op here, filtered by caller)
-		}
-		cp, ok := res.(*core.SuRecord)
-		if !ok {
-			return fmt.Sprintf("Copy returned %T", res)
-		}
-		x.cp = cp
-		x.cpLog = x.attach(cp)
-		m.cp = mr.clone()
-		if ev.kind == 'c' {
-			x.onCopy, m.onCopy = true, true
+		switch ev.kind {
+		case 's':
+			mr.set(ev.f, ev.v)
+		case 'g':
+			want := mr.sem(ev.f)
+			mv := mr.get(ev.f)
+			if got := valStr(res); got != want {
+				return fail("", "%s returned %q but the rule evaluated on the current field values gives %q (fields: %s)",
+					ev.name, got, want, mr.plain())
+			}
+			if mv != want {
+				return fail("", "model inconsistency at %s: algorithm %q, from scratch %q", ev.name, mv, want)
+			}
+		case 'd':
+			mr.del(ev.f)
+		case 'i':
+			mr.userInvalidate(ev.f)
+		case 'p':
+			mr.setDeps(ev.f, ev.v)
+		case 'o':
+			mr.readonly = true
+		case 'c', 'k':
+			cp, ok := res.(*core.SuRecord)
+			if !ok {
+				return fail("", "Copy returned %T", res)
+			}
+			x.cp = cp
+			x.cpLog = x.attach(cp)
+			m.cp = mr.clone()
+			if ev.kind == 'c' {
+				x.onCopy, m.onCopy = true, true
+			}
 		}
 	}
-	// observers: exactly the changed member and each invalidated rule field, once
-	if got, want := sortedCopy(lg.notes), sortedCopy(mr.notes); strings.Join(got, " ") != strings.Join(want, " ") {
-		return fmt.Sprintf("%s: observer notified of [%s], expected exactly [%s]", ev.name,
-			strings.Join(got, " "), strings.Join(want, " "))
+	// observers: every required notification, nothing outside the allowed
+	// set, nothing twice
+	mr = m.cur()
+	if ev.kind == 'c' {
+		mr = m.rec // the event ran on the original
 	}
-	if got, want := sortedCopy(lg.seen), sortedCopy(mr.seen); strings.Join(got, " ") != strings.Join(want, " ") {
-		return fmt.Sprintf("%s: observer read [%s] but the current field values give [%s]", ev.name,
-			strings.Join(got, " "), strings.Join(want, " "))
+	got := map[string]bool{}
+	for i, n := range lg.notes {
+		if got[n] {
+			return fail("", "%s: observer notified twice of %s (notifications: %v)", ev.name, n, lg.notes)
+		}
+		got[n] = true
+		if !mr.allowed[n] {
+			return fail("", "%s: observer notified of %s, which has no tracked dependency on the changed member (notifications: %v, changed/invalidated: %v)",
+				ev.name, n, lg.notes, mr.notes)
+		}
+		if x.activeOb {
+			// the observer read this[member] at that moment
+			want := n + "=" + mr.sem(n)
+			mr.get(n)
+			if i >= len(lg.seen) || lg.seen[i] != want {
+				return fail("", "%s: observer read %v but the current field values give %s", ev.name, lg.seen, want)
+			}
+		}
+	}
+	for _, n := range mr.notes {
+		if mr.required[n] && !got[n] {
+			return fail("", "%s: observer was not notified of %s (notifications: %v, changed/invalidated: %v)",
+				ev.name, n, lg.notes, mr.notes)
+		}
 	}
 	// the other record must not be notified by an event on this one
 	if other := x.otherLog(); other != nil && len(other.notes) > 0 {
-		return fmt.Sprintf("%s: observer of the other record was notified of %v", ev.name, other.notes)
+		return fail("", "%s: observer of the other record was notified of %v", ev.name, other.notes)
 	}
-	return ""
+	// A read-only record with an invalid cached rule value: read every rule
+	// field twice right away. With the candidate defect the second read is
+	// stale; the path is then reported under its class and not explored further
+	// (the model would knowingly diverge). Otherwise exploration continues.
+	mr = m.cur()
+	if mr.staleCached() && ev.kind != 'c' && ev.kind != 'k' {
+		m.tainted = true
+		for round := 1; round <= 2; round++ {
+			for _, f := range ruleFields {
+				want := mr.sem(f)
+				var got string
+				if e := lib.Try(func() { got = valStr(r.Get(x.th, core.SuStr(f))) }); e != nil {
+					return fail("", "read of %s panicked: %s", f, lib.PanicText(e))
+				}
+				mr.get(f)
+				if got != want {
+					return fail(classROStale, "after %s on a read-only record, read %d of %s returned %q but the rule evaluated on the current field values gives %q (fields: %s)",
+						ev.name, round, f, got, want, mr.plain())
+				}
+			}
+		}
+	}
+	return nil
 }
 
 func (x *impl) otherLog() *obsLog {
@@ -493,35 +669,39 @@ func (m *mrec) plain() string {
 			fmt.Fprintf(&sb, "%s=%q ", f, v)
 		}
 	}
+	if m.readonly {
+		sb.WriteString("read-only")
+	}
 	return strings.TrimSpace(sb.String())
 }
 
 // probe reads every field of a record, first through a fresh Copy (which must
 // give the same values: Copy keeps values, invalid marks and dependencies) and
 // then directly, in the given order; each value must equal sem.
-func probe(x *impl, r *core.SuRecord, mr *mrec, which string, order []string) string {
-	var msg string
+func probe(x *impl, r *core.SuRecord, mr *mrec, which string, order []string) *failure {
+	var f *failure
+	class := ""
 	if e := lib.Try(func() {
 		cp := r.Copy().(*core.SuRecord)
 		cp.AttachRule(core.SuStr("r3"), ruleR3)
-		for _, f := range order {
-			want := mr.sem(f)
-			if got := valStr(cp.Get(x.th, core.SuStr(f))); got != want && msg == "" {
-				msg = fmt.Sprintf("probe: Copy of %s: field %s = %q but the current field values give %q (fields: %s)",
-					which, f, got, want, mr.plain())
+		for _, fld := range order {
+			want := mr.sem(fld)
+			if got := valStr(cp.Get(x.th, core.SuStr(fld))); got != want && f == nil {
+				f = fail("", "probe: Copy of %s: field %s = %q but the current field values give %q (fields: %s)",
+					which, fld, got, want, mr.plain())
 			}
 		}
-		for _, f := range order {
-			want := mr.sem(f)
-			if got := valStr(r.Get(x.th, core.SuStr(f))); got != want && msg == "" {
-				msg = fmt.Sprintf("probe: %s: field %s = %q but the current field values give %q (fields: %s)",
-					which, f, got, want, mr.plain())
+		for _, fld := range order {
+			want := mr.sem(fld)
+			if got := valStr(r.Get(x.th, core.SuStr(fld))); got != want && f == nil {
+				f = fail(class, "probe: %s: field %s = %q but the current field values give %q (fields: %s)",
+					which, fld, got, want, mr.plain())
 			}
 		}
 	}); e != nil {
-		return "probe panicked: " + lib.PanicText(e)
+		return fail("", "probe panicked: %s", lib.PanicText(e))
 	}
-	return msg
+	return f
 }
 
 var probeOrders = [][]string{
@@ -533,44 +713,68 @@ var probeOrders = [][]string{
 var thPool = sync.Pool{New: func() any { return &core.Thread{} }}
 
 // runPath replays path on a fresh record and model, judging every step, then
-// probes. Returns the model after the last event (before the probe) and a
-// failure message.
-func runPath(root int, activeOb bool, path []int, probeOrder int) (*model, string) {
-	th := thPool.Get().(*core.Thread)
-	defer thPool.Put(th)
-	x, m := newImpl(th, root, activeOb)
-	for i, e := range path {
-		if msg := step(x, m, &events[e]); msg != "" {
-			return m, fmt.Sprintf("step %d: %s", i+1, msg)
+// probes. Returns the model after the last event (before the probe).
+func runPath(root int, activeOb bool, path []int, probeOrder int) (m *model, f *failure) {
+	x, m := newImpl(thPool.Get().(*core.Thread), root, activeOb)
+	defer func() { thPool.Put(x.th) }()
+	defer func() {
+		if f != nil && f.class == "" && m.tainted && !strings.Contains(f.msg, "model inconsistency") {
+			f.class = classROStale
 		}
+	}()
+	for i, e := range path {
+		if f := step(x, m, &events[e]); f != nil {
+			f.msg = fmt.Sprintf("step %d: %s", i+1, f.msg)
+			return m, f
+		}
+	}
+	if m.rec.staleCached() || m.cp != nil && m.cp.staleCached() {
+		m.tainted = true
 	}
 	key := m.key()
-	_ = key
-	// probe on clones of the model (the probe mutates bookkeeping, not meaning)
-	if msg := probe(x, x.rec, m.rec.clone(), "the record", probeOrders[probeOrder]); msg != "" {
-		return m, msg
+	// the probe works on clones of the model records (reading changes the
+	// bookkeeping of what is cached, not what the values must be)
+	pr := func(mr *mrec) *mrec {
+		c := mr.clone()
+		c.readonly = mr.readonly
+		return c
+	}
+	if f := probe(x, x.rec, pr(m.rec), "the record", probeOrders[probeOrder]); f != nil {
+		return m, f
 	}
 	if x.cp != nil {
-		if msg := probe(x, x.cp, m.cp.clone(), "the copy", probeOrders[probeOrder]); msg != "" {
-			return m, msg
+		if f := probe(x, x.cp, pr(m.cp), "the copy", probeOrders[probeOrder]); f != nil {
+			return m, f
 		}
 	}
-	return m, ""
+	if m.key() != key {
+		lib.Infra("probe changed the model")
+	}
+	return m, nil
 }
 
 // ---------------------------------------------------------------- BFS
-
-type node struct {
-	path []int
-}
 
 type succ struct {
 	key  string
 	path []int
 }
 
+type pendingT struct {
+	cs  caseT
+	f   *failure
+	ctx string
+}
+
+var (
+	pendMu  sync.Mutex
+	pending []pendingT // classified failures, reported after the search
+	nPend   int
+)
+
 func run(c *lib.Ctx) {
 	setup()
+	debug.SetGCPercent(800) // many small short-lived objects, small live heap
 	depth := lib.Pick(c, 5, 7)
 	c.Set("events", len(events))
 	c.Set("max_depth", depth)
@@ -590,6 +794,12 @@ func run(c *lib.Ctx) {
 		}
 	}
 	c.Set("depth_completed", completed)
+	// Classified candidate-defect cases are reported last so that the whole
+	// search completes even while the class is not a listed known finding.
+	c.Count("paths_pruned_at_"+classROStale, nPend)
+	for _, p := range pending {
+		c.Fail(p.f.class, p.cs, "%s [%s]", p.f.msg, p.ctx)
+	}
 }
 
 func bfs(c *lib.Ctx, root int, activeOb bool, depth int) int {
@@ -597,50 +807,53 @@ func bfs(c *lib.Ctx, root int, activeOb bool, depth int) int {
 	_, m0 := newImpl(&core.Thread{}, root, activeOb)
 	seen[m0.key()] = true
 	c.State(1)
-	frontier := []node{{}}
+	frontier := [][]int{{}}
 	for d := 1; d <= depth; d++ {
 		results := make([][]succ, len(frontier))
 		ok := c.Par(len(frontier), func(i int) {
-			nd := frontier[i]
+			base := frontier[i]
 			var out []succ
-			hasCopy := false
-			for _, e := range nd.path {
-				if k := events[e].kind; k == 'c' || k == 'k' {
-					hasCopy = true
-				}
-			}
 			for e := range events {
-				if k := events[e].kind; hasCopy && (k == 'c' || k == 'k') {
+				if !applicable(base, e) {
 					continue
 				}
-				path := append(append(make([]int, 0, len(nd.path)+1), nd.path...), e)
-				m, msg := runPath(root, activeOb, path, (i+e)%len(probeOrders))
+				path := append(append(make([]int, 0, len(base)+1), base...), e)
+				m, f := runPath(root, activeOb, path, (i+e)%len(probeOrders))
 				c.Eval(1)
 				c.Transition(1)
 				c.TraceValidated(1)
-				if msg != "" {
-					c.Fail("", mkCase(root, activeOb, path), "%s [root=%d activeObserver=%v path=%s]",
-						msg, root, activeOb, strings.Join(mkCase(root, activeOb, path).Events, "; "))
-					continue
+				if f != nil {
+					cs := mkCase(root, activeOb, path)
+					ctx := fmt.Sprintf("root=%d activeObserver=%v path=%s", root, activeOb, strings.Join(cs.Events, "; "))
+					if f.class != "" {
+						pendMu.Lock()
+						nPend++
+						if len(pending) < 2000 {
+							pending = append(pending, pendingT{cs, f, ctx})
+						}
+						pendMu.Unlock()
+					} else {
+						c.Fail("", cs, "%s [%s]", f.msg, ctx)
+					}
+					continue // a failing path is not explored further
 				}
 				out = append(out, succ{m.key(), path})
 			}
 			results[i] = out
 		})
-		var next []node
+		var next [][]int
 		for _, out := range results {
 			for _, s := range out {
 				if !seen[s.key] {
 					seen[s.key] = true
-					next = append(next, node{s.path})
+					next = append(next, s.path)
 				}
 			}
 		}
 		c.State(len(next))
 		c.Nontrivial(len(next))
 		if len(next) > 0 && c.NSamples() < 8 {
-			s := next[len(next)/2]
-			c.Sample(mkCase(root, activeOb, s.path))
+			c.Sample(mkCase(root, activeOb, next[len(next)/2]))
 		}
 		if !ok || c.Stopped() {
 			return d - 1
@@ -660,8 +873,8 @@ func replay(c *lib.Ctx, raw json.RawMessage) {
 		lib.Infra("bad case: %v", err)
 	}
 	for po := range probeOrders {
-		if _, msg := runPath(cs.Root, cs.ActiveOb, cs.Path, po); msg != "" {
-			c.Fail("", cs, "%s", msg)
+		if _, f := runPath(cs.Root, cs.ActiveOb, cs.Path, po); f != nil {
+			c.Fail(f.class, cs, "%s", f.msg)
 			return
 		}
 	}
@@ -671,16 +884,17 @@ func main() {
 	lib.Main(lib.Spec{
 		ID:    "C35",
 		Level: "model_checking",
-		Rule: "BFS over event sequences (set/get/delete/assign-rule-field/Invalidate/SetDeps/Copy) on a real SuRecord with rules r1=a,b r2=r1 r3=a?r1:c and an observer; " +
-			"successor = replay path + 1 event on a fresh record; a state is distinct when its reference-model state (members, invalid marks, tracked dependencies, copy) is new; " +
+		Rule: "BFS over event sequences (set/get/delete/assign-rule-field/Invalidate/SetDeps/Copy/Set_readonly) on a real SuRecord with rules r1=a,b r2=r1 r3=a?r1:c and an observer; " +
+			"successor = replay path + 1 event on a fresh record; a state is distinct when its reference-model state (members, invalid marks, tracked dependencies, read-only, copy) is new; " +
 			"every transition is executed on the implementation and followed by a probe reading all fields of the record(s) and of a fresh Copy",
 		Assumptions: []string{
 			"oracle: from-scratch evaluation of the rule functions on the current plain field values (no caching, no dependency tracking)",
 			"a directly assigned rule field keeps the assigned value until it is invalidated (Rules.md); PreSet (documented to bypass rules) is not in the alphabet",
 			"Invalidate is only applied to rule fields; Copy re-attaches r3 and a new observer on the copy (documented: Copy copies neither observers nor attached rules)",
+			"read-only records: assignments and deletes must be refused, rules still give the current value on every read (object.Set_readonly documentation); Invalidate/SetDeps are not applied to read-only records",
 			"observer expectation: exactly one notification for the changed member and for each rule field that held a value and has a tracked dependency on it",
 			"verdict is for the enumerated events, values and depth only",
 		},
-		QuickBudget: 70, ThoroughBudget: 600,
+		QuickBudget: 70, ThoroughBudget: 700,
 		Run: run, Replay: replay})
 }
